@@ -16,13 +16,14 @@ CONSTANTS
   MaxMatchConds = %d
   MaxIgnoreConds = %d
   WithAlt = %s
+  Reduced = %s
 INVARIANTS %s
 CHECK_DEADLOCK FALSE
 """
 
 
-def cfg(blocks, nm, ni, cm, ci, alt, inv):
-    return CFG % (blocks, nm, ni, cm, ci, "TRUE" if alt else "FALSE", inv)
+def cfg(blocks, nm, ni, cm, ci, alt, inv, reduced=False):
+    return CFG % (blocks, nm, ni, cm, ci, "TRUE" if alt else "FALSE", "TRUE" if reduced else "FALSE", inv)
 
 
 MC_INV = "Inv_C09 Inv_Shortcut"
@@ -82,6 +83,12 @@ def run(ctx, cases_override=None):
                                timeout=7200, allow_violation=True, workers=W))
             mcs.append(ctx.tlc("DispatchC09", "c09_mc2.cfg", files={"c09_mc2.cfg": cfg(1, 1, 0, 3, 0, False, "Inv_C09")},
                                timeout=7200, allow_violation=True, workers=W))
+            # reduced alphabet (4 interacting conditions), canonical lists: every block with 2+2 sub-blocks; every pair of
+            # blocks with <=2 match and <=1 ignore sub-blocks
+            mcs.append(ctx.tlc("DispatchC09", "c09_mc4.cfg", files={"c09_mc4.cfg": cfg(1, 2, 2, 1, 1, False, MC_INV, reduced=True)},
+                               timeout=7200, allow_violation=True, workers=W))
+            mcs.append(ctx.tlc("DispatchC09", "c09_mc5.cfg", files={"c09_mc5.cfg": cfg(2, 2, 1, 1, 1, False, "Inv_C09", reduced=True)},
+                               timeout=7200, allow_violation=True, workers=W))
             # every block with <=2 match conditions and one ignore condition (vocabulary without top-level alternations)
             mcs.append(ctx.tlc("DispatchC09", "c09_mc3.cfg", files={"c09_mc3.cfg": cfg(1, 1, 1, 2, 1, False, "Inv_C09")},
                                timeout=7200, allow_violation=True, workers=W))
@@ -110,6 +117,11 @@ def run(ctx, cases_override=None):
         if th:
             cases += gen("c09_gen0.cfg", cfg(1, 1, 1, 1, 1, True, "EmitCase"))             # every (<=1 cond, <=1 cond) block
             cases += gen("c09_gen1.cfg", cfg(1, 1, 0, 2, 0, True, "EmitCase"))             # every match-only pair
+            red = gen("c09_gen4.cfg", cfg(1, 2, 2, 1, 1, False, "EmitCase", reduced=True))     # every 2+2 block, reduced alphabet
+            for c in red:
+                c["full"] = True                                                                # at all 12 (command, state) points
+            cases += red
+            cases += gen("c09_gen5.cfg", cfg(2, 2, 1, 1, 1, False, "EmitCase", reduced=True))  # every pair of (2,1) blocks, 6 points
             sim = gen("c09_gen3.cfg", cfg(3, 2, 2, 3, 3, True, "EmitCase"), simulate=600, depth=80)
             for c in sim:
                 c["full"] = True          # simulated multi-block configurations: all 12 (command, state) points
